@@ -816,56 +816,56 @@ def create_dobs_string(obsl, name, spec='dobs v1.0', origin='', symbol=[], who=N
             ed[''].append(ad)
         pd['edata'].append(ed)
 
-        allcov = {}
-        for o in obsl:
-            for cname in o.cov_names:
-                if cname in allcov:
-                    if not np.array_equal(allcov[cname], o.covobs[cname].cov):
-                        raise Exception('Inconsistent covariance matrices for %s!' % (cname))
-                else:
-                    allcov[cname] = o.covobs[cname].cov
-        pd['cdata'] = []
-        for cname in cov_names:
-            cd = {}
-            cd['id'] = cname
-
-            covd = {'id': 'cov'}
-            if allcov[cname].shape == ():
-                ncov = 1
-                covd['layout'] = '1 1 f'
-                covd['#data'] = '%1.14e' % (allcov[cname])
+    allcov = {}
+    for o in obsl:
+        for cname in o.cov_names:
+            if cname in allcov:
+                if not np.array_equal(allcov[cname], o.covobs[cname].cov):
+                    raise Exception('Inconsistent covariance matrices for %s!' % (cname))
             else:
-                shape = allcov[cname].shape
-                assert (shape[0] == shape[1])
-                ncov = shape[0]
-                covd['layout'] = '%d %d f' % (ncov, ncov)
-                ds = ''
-                for i in range(ncov):
-                    for j in range(ncov):
-                        val = allcov[cname][i][j]
-                        if val == 0:
-                            ds += '0 '
-                        else:
-                            ds += '%1.14e ' % (val)
-                    ds += '\n'
-                covd['#data'] = ds
+                allcov[cname] = o.covobs[cname].cov
+    pd['cdata'] = []
+    for cname in cov_names:
+        cd = {}
+        cd['id'] = cname
 
-            gradd = {'id': 'grad'}
-            gradd['layout'] = '%d f%d' % (ncov, len(obsl))
+        covd = {'id': 'cov'}
+        if allcov[cname].shape == ():
+            ncov = 1
+            covd['layout'] = '1 1 f'
+            covd['#data'] = '%1.14e' % (allcov[cname])
+        else:
+            shape = allcov[cname].shape
+            assert (shape[0] == shape[1])
+            ncov = shape[0]
+            covd['layout'] = '%d %d f' % (ncov, ncov)
             ds = ''
             for i in range(ncov):
-                for o in obsl:
-                    if cname in o.covobs:
-                        val = o.covobs[cname].grad[i].item()
-                        if val != 0:
-                            ds += '%1.14e ' % (val)
-                        else:
-                            ds += '0 '
+                for j in range(ncov):
+                    val = allcov[cname][i][j]
+                    if val == 0:
+                        ds += '0 '
+                    else:
+                        ds += '%1.14e ' % (val)
+                ds += '\n'
+            covd['#data'] = ds
+
+        gradd = {'id': 'grad'}
+        gradd['layout'] = '%d f%d' % (ncov, len(obsl))
+        ds = ''
+        for i in range(ncov):
+            for o in obsl:
+                if cname in o.covobs:
+                    val = o.covobs[cname].grad[i].item()
+                    if val != 0:
+                        ds += '%1.14e ' % (val)
                     else:
                         ds += '0 '
-            gradd['#data'] = ds
-            cd['array'] = [covd, gradd]
-            pd['cdata'].append(cd)
+                else:
+                    ds += '0 '
+        gradd['#data'] = ds
+        cd['array'] = [covd, gradd]
+        pd['cdata'].append(cd)
 
     rs = '<?xml version="1.0" encoding="utf-8"?>\n' + _dobsdict_to_xmlstring_spaces(od)
 
